@@ -1147,7 +1147,7 @@ class Canon:
         known = known_defs()
         return name.startswith("_") and not name.startswith("__") and f"{cls.name}.{name}" not in known and name not in known
 
-    def _lookup(self, module, cls, fn, inline: set[str], keep: set[str]):
+    def _lookup(self, module, cls, fn, inline: set[str], keep: set[str], accessors: bool = False):
         known = known_defs()
         nested = {n.name: n for n in ast.walk(fn) if isinstance(n, ast.FunctionDef) and n is not fn}
 
@@ -1155,7 +1155,13 @@ class Canon:
             body = lower_matches(body, self._match_args(module, fn))
             return lift_walrus(lift_ifexp(body))
 
-        local_types = self._local_types(real_body(fn), module, cls)
+        local_types = self._local_types(real_body(fn), module, cls, fn)
+
+        def accessor(m) -> bool:
+            """a method that only reads: one `return <pure expression>` (seen through like a private helper, whatever its name)"""
+            b_ = real_body(m)
+            return len(b_) == 1 and isinstance(b_[0], ast.Return) and b_[0].value is not None and norm.is_pure(b_[0].value, _PURE_EXT) \
+                and not m.decorator_list and not m.args.vararg and not m.args.kwarg and not any(isinstance(n, (ast.Yield, ast.YieldFrom)) for n in ast.walk(m))
 
         def lookup(call):
             f = call.func
@@ -1165,10 +1171,11 @@ class Canon:
                 name = f.attr
                 if name in keep:
                     return None
-                if not (name in inline or (name.startswith("_") and not name.startswith("__") and f"{k.name}.{name}" not in known and name not in known)):
-                    return None
                 _, m = k.find_method(name)
                 if m is None:
+                    return None
+                if not (name in inline or (name.startswith("_") and not name.startswith("__") and f"{k.name}.{name}" not in known and name not in known)
+                        or (accessors and f.value.id != "self" and not name.startswith("__") and accessor(m))):
                     return None
                 if any(u(d) in ("property", "staticmethod", "classmethod", "cached_property") for d in m.decorator_list):
                     if any(u(d) == "staticmethod" for d in m.decorator_list):
@@ -1207,9 +1214,28 @@ class Canon:
             self._sigs = idx
         return self._sigs
 
-    def _local_types(self, stmts, module, cls):
+    def _local_types(self, stmts, module, cls, fn=None):
         from .model import Class
         out = {}
+        # parameters annotated with a class of the program (`hugr: Hugr`, `other: "Hugr | None"`)
+        if fn is not None:
+            for a in fn.args.posonlyargs + fn.args.args + fn.args.kwonlyargs:
+                ann = a.annotation
+                if isinstance(ann, ast.Constant) and isinstance(ann.value, str):
+                    try:
+                        ann = ast.parse(ann.value, mode="eval").body
+                    except SyntaxError:
+                        ann = None
+                if isinstance(ann, ast.BinOp) and isinstance(ann.op, ast.BitOr):
+                    parts = [x for x in (ann.left, ann.right) if not (isinstance(x, ast.Constant) and x.value is None)]
+                    ann = parts[0] if len(parts) == 1 else None
+                if isinstance(ann, (ast.Name, ast.Attribute)) and a.arg not in ("self", "cls"):
+                    try:
+                        r = module.resolve(ann)
+                    except Exception:
+                        r = None
+                    if isinstance(r, Class):
+                        out[a.arg] = r
         for s_ in stmts:
             for n in ast.walk(s_):
                 if isinstance(n, ast.Assign) and len(n.targets) == 1 and isinstance(n.targets[0], ast.Name) and isinstance(n.value, ast.Call):
@@ -1303,8 +1329,10 @@ class Canon:
                 return node
         return [L().visit(s) for s in stmts]
 
-    def body(self, fn: ast.FunctionDef, module, cls=None, inline=(), keep=(), subst=True) -> list[ast.stmt]:
-        key = (id(fn), tuple(sorted(inline)), tuple(sorted(keep)), subst)
+    def body(self, fn: ast.FunctionDef, module, cls=None, inline=(), keep=(), subst=True, accessors=False) -> list[ast.stmt]:
+        """accessors=True: read-only one-line methods called on typed parameters / locals are seen through as well
+        (`hugr.num_out_ports(n)` is `hugr[n]._num_outs`): for rules that compare what is read, not how it is spelled"""
+        key = (id(fn), tuple(sorted(inline)), tuple(sorted(keep)), subst, accessors)
         if key in self.cache:
             return self.cache[key]
         b = [copy.deepcopy(s) for s in real_body(fn)]
@@ -1313,7 +1341,7 @@ class Canon:
         b = lower_matches(b, self._match_args(module, fn))
         b = lift_ifexp(b)
         b = lift_walrus(b)
-        inl = Inliner(self._lookup(module, cls, fn, set(inline), set(keep)))
+        inl = Inliner(self._lookup(module, cls, fn, set(inline), set(keep), accessors))
         b = inl.rec(b, inl.depth, (fn.name,))
         b = lift_walrus(lift_ifexp(b))          # conditional expressions returned by inlined helpers
         used = {n.id for s in b for n in ast.walk(s) if isinstance(n, ast.Name)} | {n.func.id for s in b for n in ast.walk(s) if isinstance(n, ast.Call) and isinstance(n.func, ast.Name)}
